@@ -609,9 +609,14 @@ def rule_round9(repo, rep):
     site = "ethosu/vela/tensor_allocation.py:linear_allocate_live_ranges"
     rounds = [a for a in ast.walk(f) if isinstance(a, ast.Assign) and any(str(norm(t)) == "address" for t in a.targets) and "round_up" in str(norm(a.value)) and "total_sz" in str(norm(a.value))]
     tests = [i for i in ast.walk(f) if isinstance(i, ast.If) and str(norm(i.test)) in ("address == total_sz", "total_sz == address")]
-    if len(rounds) != 1 or len(tests) != 1:
+    if len(tests) != 1 or len(rounds) > 1:
         raise AnalysisError(f"linear_allocate_live_ranges: rounding statement / freshness test not found ({len(rounds)}, {len(tests)})")
-    both = any(str(norm(t)) == "total_sz" for t in rounds[0].targets)
+    if not rounds:
+        # no alignment step at all: the address is the running total itself (whether that is right is C05-a's question, not this one's)
+        rounds = [a for a in ast.walk(f) if isinstance(a, ast.Assign) and any(str(norm(t)) == "address" for t in a.targets) and "total_sz" in str(norm(a.value))]
+        if len(rounds) != 1:
+            raise AnalysisError("linear_allocate_live_ranges: the statement that takes the next address from the running total was not found")
+    both = any(str(norm(t)) == "total_sz" for t in rounds[0].targets) or str(norm(rounds[0].value)) == "total_sz"
     if not both:
         c = cfg_of(f)
         src = c.nodes_where(lambda n_: n_.stmt is rounds[0])
